@@ -430,13 +430,25 @@ class Balancer:
         return Bool(truism.op, (new_lhs, new_rhs))
 
     @staticmethod
+    def _unsigned_comparison(op):
+        """
+        The comparison that holds between two non-negative numbers of a wider width when `op` holds between them:
+        the unsigned version of a signed comparison, anything else unchanged.
+        """
+        return {"SLT": "ULT", "SLE": "ULE", "SGT": "UGT", "SGE": "UGE"}.get(op, op)
+
+    @staticmethod
     def _balance_zeroext(truism):
         num_zeroes, inner = truism.args[0].args
         other_side = truism.args[1][len(truism.args[1]) - 1 : len(truism.args[1]) - num_zeroes]
 
         if claripy.backends.vsa.is_true(other_side == 0):
-            # We can safely eliminate this layer of ZeroExt
-            return Bool(truism.op, (inner, truism.args[1][len(truism.args[1]) - num_zeroes - 1 : 0]))
+            # We can safely eliminate this layer of ZeroExt.  Both sides are non-negative at the wider width, so a
+            # signed comparison there is the unsigned comparison of the narrower operands (x = 8 satisfies
+            # ZeroExt(2, x) >s 7 at 6 bits, but not x >s 7 at 4 bits)
+            return Bool(
+                Balancer._unsigned_comparison(truism.op), (inner, truism.args[1][len(truism.args[1]) - num_zeroes - 1 : 0])
+            )
 
         return truism
 
@@ -535,7 +547,8 @@ class Balancer:
             # we can cut these guys off!
             remaining_left = claripy.Concat(*truism.args[0].args[1:])
             remaining_right = truism.args[1][size - len(left_msb) - 1 : 0]
-            return Bool(truism.op, (remaining_left, remaining_right))
+            # as for ZeroExt: with zero high parts both sides are non-negative, a signed comparison is unsigned below
+            return Bool(Balancer._unsigned_comparison(truism.op), (remaining_left, remaining_right))
         # TODO: handle non-zero single-valued cases
         return truism
 
